@@ -61,6 +61,18 @@ Theorem C02_seeder_any_chooser : forall sha1 cf disk ovf a content choose,
   forall n m s c, still_missing m = N.of_nat n -> Cur sha1 cf a content m s c ->
   exists m', Download sha1 cf disk ovf a content choose (m, s, c) m' /\ all_have (m_status m') = true.
 Proof. exact seeder_download_completes. Qed.
+(* ... and the loop is reached from the connection itself: the seeder's handshake, its bitfield with every piece and,
+   after our Interested, its unchoke end -- whenever something is missing -- in the first assignment *)
+Theorem C02_seeder_from_connection : forall sha1 cf disk ovf a content choose,
+  (forall m p, pick_ok m p (choose m p) = true) -> forall m0 p0 s0 (pid bs : bytes),
+  Good sha1 cf content m0 ->
+  (forall j x, nthN (m_status m0) j = Some x -> x = Missing \/ x = Manager.Have) -> all_have (m_status m0) = false ->
+  pget (m_peers m0) a = Some p0 -> p_piece_index p0 = None -> length (p_pieces p0) = length (m_status m0) ->
+  to_vec bs (pieces_n m0) = Some (repeat true (length (m_status m0))) -> bitfield_validate bs (c_pieces_num cf) = true ->
+  h_peer_id s0 = None -> h_hs_done s0 = false -> h_choked s0 = true -> h_rx s0 = None ->
+  exists m3 s3 c m', Cur sha1 cf a content m3 s3 c /\ still_missing m3 = still_missing m0 /\
+                     Download sha1 cf disk ovf a content choose (m3, s3, c) m' /\ all_have (m_status m') = true.
+Proof. exact seeder_from_connection. Qed.
 Example C02_seeder_nonvacuous : Cur (fun x => x) lx_cf 1 lx_content lx_m lx_s 0 /\ still_missing lx_m = N.of_nat 2.
 Proof. exact live_nonvacuous. Qed.
 
@@ -102,3 +114,4 @@ Print Assumptions C02_idle_announcer_asked.
 Print Assumptions C02_assigned_piece_completes.
 Print Assumptions C02_seeder_download_completes.
 Print Assumptions C02_seeder_any_chooser.
+Print Assumptions C02_seeder_from_connection.
